@@ -26,6 +26,7 @@ type NameResult struct {
 	Failing   *ObligResult
 	Fails     []*ObligResult
 	Time      float64
+	MaxTime   float64 // slowest single path instance
 	Solvers   map[string]int
 	Func      string
 }
@@ -91,6 +92,9 @@ func aggregate(rs []ObligResult) []*NameResult {
 		}
 		n.Instances++
 		n.Time += r.Res.Time
+		if r.Res.Time > n.MaxTime {
+			n.MaxTime = r.Res.Time
+		}
 		if r.Res.Solver != "" {
 			n.Solvers[r.Res.Solver]++
 		}
